@@ -117,28 +117,30 @@ def readAttrValue (tag : Tag) : Nat → Nat → M (Bytes × Tag)
   | f+1, sz => do
     let buf ← peek sz
     let b0 ← at? buf 0
-    let b1 ← at? buf 1
+    -- (repaired) white space may follow the '=': the quote is the first non-blank byte after it (o = its index + 1)
+    let o := idxFrom (fun b => !isWs b) buf 1 + 1
+    let b1 := buf.getD (o - 1) 0
     if b0 == 61 && (b1 == 34 || b1 == 39) then
-      let k := (buf.drop 2).findIdx (fun x => x == b1)
-      if 2 + k + 2 < buf.length then
-        let i := 2 + k
+      let k := (buf.drop o).findIdx (fun x => x == b1)
+      if o + k + 2 < buf.length then
+        let i := o + k
         let n1 ← at? buf (i + 1)
         if n1 == 62 then do
           setA false
           discard (i + 2)
-          pure ((buf.drop 2).take (i - 2), tag)
+          pure ((buf.drop o).take (i - o), tag)
         else if n1 == 47 then do
           let n2 ← at? buf (i + 2)
           if n2 == 62 then do
             setA false
             discard (i + 3)
-            pure ((buf.drop 2).take (i - 2), { tag with t := .solo })
+            pure ((buf.drop o).take (i - o), { tag with t := .solo })
           else do
             discard (i + 1)
-            pure ((buf.drop 2).take (i - 2), tag)
+            pure ((buf.drop o).take (i - o), tag)
         else do
           discard (i + 1)
-          pure ((buf.drop 2).take (i - 2), tag)
+          pure ((buf.drop o).take (i - o), tag)
       else readAttrValue tag f (sz + 512)
     else readAttrValue tag f (sz + 512)
 
@@ -172,6 +174,8 @@ def readAttribute (tag : Tag) : M (Tok × Tag) := do
   | none => fail .negativeRead
   | some (p, d) =>
     discard d
+    -- (repaired) white space may separate the name from the '='
+    let _ ← skipAttrWs (len + 2)
     let (v, tag') ← readAttrValue tag 8 256
     pure ({ pt := 1, parent := tag.self, self := p, val := v }, tag')
 
